@@ -157,6 +157,17 @@ def admits(tree, gname: str, ch: str, dotall: bool = False) -> bool:
     return found
 
 
+class Rx(Regex):
+    """The shared interpreter, honouring flags given inline in the pattern text (`(?m)`, `(?s)`)."""
+
+    def __init__(self, pattern: str, flags: int = 0) -> None:
+        super().__init__(pattern, flags)
+        eff = flags | int(getattr(self.tree.state, "flags", 0))
+        self.flags = eff
+        self.multiline = bool(eff & re.MULTILINE)
+        self.dotall = bool(eff & re.DOTALL)
+
+
 class StdRegex:
     """Same questions answered by the stdlib engine (used when the checker's interpreter does not support a construct of the pattern)."""
 
@@ -193,7 +204,7 @@ class LinePattern:
         self._tree = None
         self.own = True
         try:
-            self.rx = Regex(p.text, p.flags)
+            self.rx = Rx(p.text, p.flags)
             bad = cross_validate(self.rx, samples + [self.PRE + x + self.POST for x in samples])
         except AnalysisError as e:
             bad = [str(e)]
@@ -464,7 +475,7 @@ def run(repo: Repo) -> Result:
         for role in ("name", "tail", "head"):
             for g in lp.groups(role):
                 for ch in (".", "_", "7", "x"):
-                    ok = admits(lp.tree(), g, ch, bool(lp.p.flags & re.DOTALL))
+                    ok = admits(lp.tree(), g, ch, bool((lp.p.flags | int(getattr(lp.tree().state, 'flags', 0))) & re.DOTALL))
                     res.add("C06.R1", f"{lp.key()}::group {g} admits {ch!r}", ok, f"component names may contain {ch!r}" if ok else f"the character class of group `{g}` does not admit {ch!r}: fully qualified dotted module names / identifiers cannot be component names", lp.where(), kind="regex-language")
     res.analysed["form_table_lines"] = len(samples)
     res.analysed["unmodelled"] = list(interp.unknown)
@@ -764,7 +775,7 @@ def check_tags(repo: Repo, res: Result, parser: ClassInfo, error_cls: ClassInfo,
     # a pattern applied once (search / match) to a text of several lines reads only one of them
     if completed:
         for st in subjects:
-            if st.how in ("search", "match", "fullmatch") and st.subject.concrete and any(isinstance(v, str) and len([l for l in v.splitlines() if l.strip()]) > 1 for v in st.subject.values()):
+            if st.how in ("search", "match", "fullmatch") and len(st.calls) == 1 and st.subject.concrete and any(isinstance(v, str) and len([l for l in v.splitlines() if l.strip()]) > 1 for v in st.subject.values()):
                 key_ = repo.key(st.fi, st.node) if st.fi is not None else parse_key
                 res.add("C06.R1", key_ + " [applied once to the whole diagram]", False, f"`{norm(st.node, 60)}` applies the pattern once to the text between the tags ({len(BODY.strip().splitlines())} lines in the sample): only the first declaration / arrow of a diagram is read", f"{st.fi.relpath}:{st.node.lineno}" if st.fi is not None else parse_where, kind="regex-language")
     # rejected contents
